@@ -19,10 +19,36 @@ def _norm(f) -> str:
     # drop the word-boundary guard (only the multi-byte variants have / need one)
     body = [st for st in body if not (isinstance(st, ast.If) and "byte_offset" in ast.unparse(st.test)
                                       and st.body and isinstance(st.body[-1], ast.Raise))]
-    txt = "\n".join(ast.unparse(st) for st in body)
+    # multiset of statements, each tagged with its nesting (the guard structure it sits under): moving a
+    # statement relative to its neighbours in one sibling changes nothing here; moving it into / out of a
+    # branch, dropping, adding or altering it does
+    txt = "\n".join(sorted(_block(body)))
     for pat, rep in SUBS:
         txt = re.sub(pat, rep, txt)
     return txt
+
+
+def _block(stmts) -> list[str]:
+    """Statements of a block; runs of simple statements are compared as multisets (their relative order
+    inside one sibling may differ without changing what is done), compound statements keep their place."""
+    out: list[str] = []
+    run: list[str] = []
+    for st in stmts:
+        if isinstance(st, (ast.If, ast.For, ast.While, ast.Try, ast.With)):
+            out += sorted(run)
+            run = []
+            if isinstance(st, ast.If):
+                out.append("if " + ast.unparse(st.test) + ":")
+                out += ["    " + x for x in _block(st.body)]
+                if st.orelse:
+                    out.append("else:")
+                    out += ["    " + x for x in _block(st.orelse)]
+            else:
+                out.append(ast.unparse(st))
+        else:
+            run.append(ast.unparse(st))
+    out += sorted(run)
+    return out
 
 
 def sibling_rule(ctx: Ctx, rid: str, groups=None) -> None:
